@@ -170,7 +170,7 @@ def gen_cases(rng, tier):
             h = rand_word(rng, "ACGTWSN", rng.randint(1, 3))
             p = h + rcs(h)
         elif kind < 0.75:
-            p = "%dx%s" % (rng.randint(1, 6), rng.choice("ACGT"))
+            p = "%dx%s" % (rng.randint(1, 6), rng.choice("ACGTACGTNWSRYKMBDHV"))
         elif kind < 0.9:
             p = "%dx%dmer" % (rng.randint(1, 4), rng.randint(1, 3))
         else:
